@@ -4,15 +4,24 @@ Spec      : spec/Containers.tla, actions PatchSum (NormalisedCounts /
             PatchedSumWeights.sample_patch_sum), Sample (CorrFunc.sample:
             Landy-Szalay / Davis-Peebles selection), RedshiftCF / RedshiftCD
             (RedshiftData.from_corrfuncs / from_corrdata), Normalise
-            (HistData.normalised / RedshiftData.normalised).  TLC checks on exact
+            (HistData.normalised / RedshiftData.normalised), GetArray (the read
+            accessors get_array() of PatchedCounts / PatchedSumWeights /
+            NormalisedCounts, also through the members of a CorrFunc: the terms
+            of the estimators must be the same before and after a caller looked
+            at the arrays).  TLC checks on exact
             rationals: normaliser = product of the total weights (half the
             squared total for an autocorrelation) for the value and every
             leave-one-patch-out sample, the einsum shortcut of the jackknife, the
             estimator chosen for every member combination, integral = 1 after
-            normalisation, absent autocorrelations enter n(z) as 1.
+            normalisation, absent autocorrelations enter n(z) as 1, the arrays
+            handed out by get_array sum to what sample_patch_sum reports.
 spec->code: every (scenario, operation) case printed by TLC with its exact
             rational result is executed on real containers built from the same
-            integers; value AND every jackknife row are compared (1e-9).  The
+            integers; value AND every jackknife row are compared (1e-9), and so
+            are the raw counts / sums of weights of every container of the
+            workspace after every step (an accessor or estimator that rescales
+            the stored counts is noticed at once and in the following Sample /
+            PatchSum / RedshiftCF of the same history).  The
             irrational n(z) = w_sp / sqrt(dz^2 w_ss w_pp) is evaluated by the
             driver from the exact rationals the spec selects.
 end-to-end: CorrFuncs measured by the real autocorrelate/crosscorrelate (all
@@ -35,13 +44,17 @@ from harness.yawenv import scratch
 S = C.scenario
 
 MEMS = [("dr",), ("rd",), ("rr",), ("dr", "rd"), ("dr", "rr"), ("rd", "rr"), ("dr", "rd", "rr")]
-C04_OPS = ["PatchSum", "Sample", "RedshiftCF", "RedshiftCD", "RedshiftCDVar", "Normalise"]
+C04_OPS = ["PatchSum", "Sample", "RedshiftCF", "RedshiftCD", "RedshiftCDVar", "Normalise", "GetArray"]
 DEEP_OPS = C04_OPS + ["Mul", "Bins", "Patches"]
+# compositions that must be among the replayed histories (state carried from a read accessor into an estimator)
+REQUIRED_PAIRS = [("GetArray", "Sample"), ("GetArray", "PatchSum"), ("GetArray", "RedshiftCF"), ("GetArray", "GetArray"),
+                  ("Bins", "GetArray"), ("Patches", "GetArray"), ("Mul", "GetArray")]
 
 # hypothetical deviations: the laws of the spec must notice them (non-vacuity)
 HYPO = {
     "LsMixedTwice": (S("CF", 2, 3, mem=("dr", "rd", "rr"), seed=1), ["Sample"], ["EstimatorLaw"]),
     "HistNormBeforeWidth": (S("CD", 3, 2, seed=1), ["Normalise"], ["IntegralIsOne"]),
+    "NcArrayPairwiseNorm": (S("NC", 2, 3, seed=1), ["GetArray"], ["GetArrayLaw"]),
 }
 
 
@@ -58,12 +71,20 @@ def scenarios(quick: bool, rng):
     for (nb, np_) in shapes:
         for seed in seeds + [8, 9, 10]:
             out.append(S("CD", nb, np_, seed=seed, closed="left" if seed % 3 == 0 else "right"))
+    # an empty redshift bin (no pairs, no weights): the terms are 0/0 there, everything else is as prescribed
+    for (nb, np_), zero in (((2, 3), 2), ((3, 2), 1)):
+        for mem, auto in ((("dr", "rd", "rr"), False), (("dr",), True), (("rd",), False), (("dr", "rr"), True)):
+            out.append(S("CF", nb, np_, auto=auto, mem=mem, seed=1 + zero, zero=zero))
+        for lv in ("NC", "SW", "PC"):
+            out.append(S(lv, nb, np_, auto=zero == 1, seed=2, zero=zero))
+        out.append(S("CD", nb, np_, seed=3, zero=zero))
     return out
 
 
 def deep_scenarios(quick: bool):
     base = [S("CF", 2, 3, mem=("dr", "rd", "rr"), seed=1), S("CF", 2, 2, auto=True, mem=("dr", "rr"), seed=2),
-            S("CF", 3, 2, mem=("rd",), seed=3), S("CD", 3, 2, seed=1), S("NC", 2, 3, auto=True, seed=1)]
+            S("CF", 3, 2, mem=("rd",), seed=3), S("CD", 3, 2, seed=1), S("NC", 2, 3, auto=True, seed=1),
+            S("CF", 2, 2, mem=("dr",), seed=2, zero=2), S("SW", 2, 2, seed=1), S("PC", 2, 2, auto=True, seed=2)]
     if not quick:
         base += [S("CF", 3, 3, mem=("dr", "rd"), seed=4), S("CF", 2, 3, auto=True, mem=("dr",), seed=5),
                  S("CF", 3, 3, mem=("dr", "rr"), seed=6), S("CD", 2, 3, seed=2, closed="left"), S("SW", 3, 3, seed=2)]
@@ -79,9 +100,9 @@ def run(ctx) -> None:
         return C.replay_case(ctx, world, ctx.replay, own_ops=set(C04_OPS))
     np.seterr(all="ignore")
     ctx.rule = ("every (scenario, operation) case enumerated by TLC (Containers.tla: member subsets x auto/cross x shapes x "
-                "contents; PatchSum, Sample, RedshiftCF/CD, Normalise, also after Mul/Bins/Patches) is executed on real "
+                "contents; PatchSum, Sample, RedshiftCF/CD, Normalise, GetArray, also after Mul/Bins/Patches/GetArray) is executed on real "
                 "containers; evaluation = one executed operation, value and every jackknife row compared with the exact "
-                "rationals; non-trivial = composed history or non-value outcome; distinct = (scenario, history)")
+                "rationals and the stored counts/weights of all containers compared with the model's integers; non-trivial = composed history or non-value outcome; distinct = (scenario, history)")
     ctx.assume("pair counts / weights are small integers, bin edges a fixed affine image of integers; float comparison at 1e-9 "
                "relative; where the formula is undefined (0/0, x/0, negative radicand) only non-finiteness is observed")
     ctx.assume("member combinations without a prescribed formula (rr without dr) may be rejected or evaluated (accepted both); "
@@ -117,6 +138,7 @@ def run(ctx) -> None:
     ctx.extra["hypothetical_deviations_noticed_by_TLC"] = {d: results["dev " + d].error_name for d in HYPO}
 
     total_ops: dict = {}
+    total_pairs: dict = {}
     kept = None
     for label in ("emit d1", "emit d2"):
         res = results[label]
@@ -129,6 +151,8 @@ def run(ctx) -> None:
         ctx.validated(rp.histories)
         for k, n in rp.ops_seen.items():
             total_ops[k] = total_ops.get(k, 0) + n
+        for k, n in rp.pairs_seen.items():
+            total_pairs[k] = total_pairs.get(k, 0) + n
         ctx.extra.setdefault("replay", {})[label] = dict(scenarios=len(inits), steps=len(steps), executed=rp.replayed,
                                                           histories=rp.histories, continued_with_model_object=rp.repaired,
                                                           expected_outcomes=rp.judge.by_outcome)
@@ -141,6 +165,9 @@ def run(ctx) -> None:
     for op in C04_OPS:
         ctx.require(total_ops.get(op, 0) > 0, f"operation {op} never replayed on the real code")
     ctx.extra["operations_replayed"] = total_ops
+    for pair in REQUIRED_PAIRS:
+        ctx.require(total_pairs.get(pair, 0) > 0, f"no history with {pair[0]} followed by {pair[1]} was replayed on the real code")
+    ctx.extra["compositions_replayed"] = {f"{a}->{b}": n for (a, b), n in sorted(total_pairs.items())}
     members_seen = sorted({"+".join(sorted(sk[4])) + ("/auto" if sk[3] else "/cross") for sk in kept[0] if sk[0] == "CF"})
     ctx.require(len(members_seen) == 14, f"not all member subsets x auto/cross explored: {members_seen}")
     ctx.extra["member_combinations"] = members_seen
